@@ -49,7 +49,9 @@ CONSTANTS AsmMode, FixMode,      \* the mode in force for the state machine
           RemOffs, RemLens,      \* @kind=!a1-a2: a1 = next skool address + offset, a2 = a1 + length - 1
           LabChoices,            \* subset of BOOLEAN: may a directive carry a label
           Ctls,                  \* control characters used: subset of {"c", "b", " ", "*"}
-          FeatureSets            \* set of sets of optional line classes; a file uses the classes of one of them
+          FeatureSets,           \* set of sets of optional line classes; a file uses the classes of one of them
+          DirTokKinds,           \* token kinds of the instructions carried by directives
+          DirIns                 \* only the first DirIns instruction lines carry sub/fix directives
 
 VARIABLES prog, st, gen
 
@@ -353,9 +355,10 @@ Tok(k, a, n, t) == [k |-> k, a |-> a, n |-> n, t |-> t]
 \* comes up.  The immediate of LD A,n / DEFB / DEFS is the id: the bytes tell the instructions apart.
 KindSeq == <<"one", "jp", "ld8", "jr", "defw", "call", "defb", "ldhl", "one", "djnz", "defs", "lda", "defm", "jp">>
 TargetSeq == <<0, 1, 2, 3, 4, 5, 6, 8, 4096>>
-OfferedKinds(id) == { KindSeq[((3 * id + j) % Len(KindSeq)) + 1] : j \in 0..2 } \cap TokKinds
+OfferedKinds(id, TK) == LET K == { KindSeq[((3 * id + j) % Len(KindSeq)) + 1] : j \in 0..2 } \cap TK
+                        IN IF K = {} THEN TK ELSE K
 OfferedTargets(id) == { Base + o : o \in { TargetSeq[((2 * id + j) % Len(TargetSeq)) + 1] : j \in 0..2 } \cap TargetOffs }
-TokPool(id) ==
+TokPoolOf(id, TK) ==
   UNION { CASE k = "one" -> { Tok("one", id % 8, 0, -1) }
             [] k = "ld8" -> { Tok("ld8", 16 + id, 0, -1) }
             [] k \in {"jp", "call", "ldhl", "lda", "defw"} -> { Tok(k, 0, 0, t) : t \in OfferedTargets(id) }
@@ -363,16 +366,18 @@ TokPool(id) ==
             [] k = "defb" -> { Tok("defb", 32 + id, 1 + (id % 2), -1) }
             [] k = "defm" -> { Tok("defm", 0, 3, -1) }
             [] k = "defs" -> { Tok("defs", 48 + id, 1 + 2 * (id % 2), -1) }
-          : k \in OfferedKinds(id) }
+          : k \in OfferedKinds(id, TK) }
+TokPool(id) == TokPoolOf(id, TokKinds)
+DirTokPool(id) == TokPoolOf(id, DirTokKinds)
 
-\* directive kinds offered for the id-th line: two of the six, rotating (see TokPool)
+\* directive kinds offered for the directives of the id-th instruction: two of the six, rotating (see TokPool)
 KindOrder == <<"isub", "ofix", "ssub", "bfix", "rsub", "rfix">>
 DirKinds(id) == LET K == { KindOrder[(id % 6) + 1], KindOrder[((id + 3) % 6) + 1] } \cap Kinds
                 IN IF K = {} THEN Kinds ELSE K
 
 Can(c) ==
   CASE c = "ins" -> gen.n < MaxIns
-    [] c = "sub" -> gen.n < MaxIns /\ gen.pend < MaxDirs
+    [] c = "sub" -> gen.n < MaxIns /\ gen.pend < MaxDirs /\ gen.n < DirIns
     [] c = "rem" -> gen.n < MaxIns /\ gen.blk = ""
     [] c = "begin" -> gen.n < MaxIns /\ gen.blk = "" /\ ~gen.first /\ gen.pend = 0 /\ ~gen.haslab
     [] c = "else" -> gen.blk # "" /\ ~gen.belse /\ gen.pend = 0 /\ ~gen.haslab
@@ -382,7 +387,7 @@ Can(c) ==
     [] c = "keep" -> gen.n < MaxIns /\ ~gen.haskeep
     [] c = "data" -> gen.n < MaxIns
     [] c = "bytes" -> gen.n < MaxIns /\ ~gen.hasbytes
-    [] c = "if" -> gen.n < MaxIns /\ gen.pend < MaxDirs
+    [] c = "if" -> gen.n < MaxIns /\ gen.pend < MaxDirs /\ gen.n < DirIns
     [] c = "gap" -> gen.n > 0 /\ gen.n < MaxIns /\ gen.blk = "" /\ ~gen.first /\ gen.pend = 0 /\ ~gen.haslab
                     /\ ~gen.hasbytes /\ ~gen.haskeep
 
@@ -413,8 +418,8 @@ InstructionLine(ctl, tok) ==
 
 Directive(kind, f, lab, has, tok) ==
   /\ gen.cls = "sub"
-  /\ kind \in DirKinds(Len(prog)) /\ f \in FlagSets /\ lab \in LabChoices /\ has \in {0, 1}
-  /\ tok \in (IF has = 1 THEN TokPool(8 + gen.n + gen.pend) ELSE {NoTok})
+  /\ kind \in DirKinds(gen.n) /\ f \in FlagSets /\ lab \in LabChoices /\ has \in {0, 1}
+  /\ tok \in (IF has = 1 THEN DirTokPool(8 + gen.n + gen.pend) ELSE {NoTok})
   /\ Emit(SubLine(kind, f, IF lab THEN "LD" \o ToString(gen.nlab) ELSE "", has, tok),
           [gen EXCEPT !.pend = @ + 1, !.nlab = IF lab THEN @ + 1 ELSE @])
 
@@ -483,17 +488,17 @@ DataVals == {<<201>>, <<7, 8, 9>>, <<513>>, <<Base + 1, 258>>, <<2, 255>>, <<4, 
 
 Next == \/ \E i \in 1..Len(Classes) : Pick(i)
         \/ gen.cls = "ins" /\ \E ctl \in {"c", "b", " ", "*"}, tok \in TokPool(gen.n) : InstructionLine(ctl, tok)
-        \/ gen.cls = "sub" /\ \E kind \in DirKinds(Len(prog)), f \in FlagSets, lab \in LabChoices, has \in {0, 1},
-                                 tok \in TokPool(8 + gen.n + gen.pend) \cup {NoTok} : Directive(kind, f, lab, has, tok)
+        \/ gen.cls = "sub" /\ \E kind \in DirKinds(gen.n), f \in FlagSets, lab \in LabChoices, has \in {0, 1},
+                                 tok \in DirTokPool(8 + gen.n + gen.pend) \cup {NoTok} : Directive(kind, f, lab, has, tok)
         \/ gen.cls = "rem" /\ \E kind \in Kinds, o \in RemOffs, len \in RemLens : Remove(kind, o, len)
         \/ gen.cls = "begin" /\ \E kind \in Kinds, plus \in {0, 1} : BlockBegin(kind, plus)
         \/ BlockElse \/ BlockEnd \/ Label \/ Keep \/ Gap
         \/ gen.cls = "org" /\ \E v \in {-1, gen.sk, gen.sk + 16} : Org(v)
         \/ gen.cls = "data" /\ \E d \in {"defb", "defs", "defw"}, o \in {-1, 0, 2, 5}, vals \in DataVals : Defx(d, o, vals)
         \/ gen.cls = "bytes" /\ \E vals \in {<<237, 76>>, <<0>>, <<1, 2, 3>>} : BytesDir(vals)
-        \/ gen.cls = "if" /\ \E var \in {"asm", "fix"}, rel \in {">=", "==", "<"}, n \in 1..3, k1 \in DirKinds(Len(prog)),
+        \/ gen.cls = "if" /\ \E var \in {"asm", "fix"}, rel \in {">=", "==", "<"}, n \in 1..3, k1 \in DirKinds(gen.n),
                                 f \in FlagSets \cap {<<0, 0, 0, 0>>, <<1, 0, 0, 0>>, <<0, 1, 0, 0>>, <<0, 0, 1, 0>>},
-                                t1 \in TokPool(16 + gen.n), hasno \in BOOLEAN :
+                                t1 \in DirTokPool(16 + gen.n), hasno \in BOOLEAN :
                                 If(var, rel, n, SubLine(k1, f, "", 1, t1), hasno,
                                    SubLine(k1, <<0, 0, 0, 0>>, "", 1, Tok("ld8", 99, 0, -1)))
 
